@@ -117,7 +117,11 @@ def sys_replay(ctx):
     vlib.write_ndjson(cp, cases)
     b = ctx.go_bin("mgrx")
     out = ctx.path("sysobs.ndjson")
-    ctx.must_run_go(b, "TestSys", env={"VERIF_CASES": cp, "VERIF_OUT": out}, timeout=1500)
+    tdir = ctx.path("sys-traces")
+    os.makedirs(tdir, exist_ok=True)
+    ctx.must_run_go(b, "TestSys", env={"VERIF_CASES": cp, "VERIF_OUT": out, "VERIF_TRACE": tdir}, timeout=1500)
+    # the same replays, seen from inside the two channel engines (hook lines), as behaviours of Chan.tla
+    gsx_chantrace(ctx, tdir, ["C01."], label="sys-replay")
     n, verdicts = stages.judge(ctx, out, module="SysJudge")
     idx = stages.index_obs(out)
     completed = 0
@@ -144,14 +148,14 @@ def sys_replay(ctx):
         ctx.sample({"kind": "two-node replay", "case": c["case"], "steps": [(s["node"], s["obs"]["stim"]["kind"], s["obs"]["stim"]["msg"]["kind"]) for s in c["steps"]][:40], "finalA": c["finalA"]["status"], "finalB": c["finalB"]["status"]})
 
 
-def gsx_chantrace(ctx, tdir, prefixes):
+def gsx_chantrace(ctx, tdir, prefixes, label="gsx"):
     import glob
     lines = []
     for f in sorted(glob.glob(os.path.join(tdir, "trace-*.ndjson"))):
         lines += vlib.read_ndjson(f)
     if not lines:
         raise vlib.Inconclusive("the verif hook recorded nothing during the real two-node runs")
-    return stages.chan_trace(ctx, lines, prefixes, "gsx")
+    return stages.chan_trace(ctx, lines, prefixes, label)
 
 
 def gsx_traces(ctx, prefixes, n):
